@@ -23,6 +23,8 @@ func hx(b []byte) string {
 }
 
 // CheckTree runs both directions of the oracle on one tree.
+var reused = ttlv.NewTTLVEncoder()
+
 func CheckTree(c *core.Ctx, t wire.Node, extraWords int) {
 	c.Distinct(core.Hash64(t.Shape(), fmt.Sprint(extraWords)))
 	c.Count("trees", 1)
@@ -49,6 +51,29 @@ func CheckTree(c *core.Ctx, t wire.Node, extraWords int) {
 	if !bytes.Equal(canon, enc) {
 		c.Violation("C03:encoder-not-canonical:"+clsOf(t), "library encoding differs from the canonical encoding of the independent generator",
 			map[string]any{"tree": t.String(), "library_bytes": hx(enc), "reference_bytes": hx(canon)})
+		return
+	}
+	// (a') the same value through a long-lived encoder that was used and cleared before: its buffer then holds
+	// the previous message (here: a run of 0xAA bytes at least as long), which must not show through
+	var again []byte
+	if p, v, st := core.Guard(func() {
+		reused.Clear()
+		reused.Any(ttlv.Value{Tag: 0x420008, Value: bytes.Repeat([]byte{0xAA}, len(canon)+24)})
+		reused.Clear()
+		reused.Any(val)
+		again = append([]byte{}, reused.Bytes()...)
+	}); p {
+		c.Violation(core.PanicSig(v, st), fmt.Sprintf("a reused, cleared encoder panicked on a generic tree: %v", v), map[string]any{"tree": t.String(), "stack": st})
+		return
+	}
+	c.Count("reused_encoder_outputs", 1)
+	if !bytes.Equal(again, canon) {
+		why := "well-formed but different"
+		if _, perr := wire.Parse(again); perr != nil {
+			why = "independent parser: " + perr.Error()
+		}
+		c.Violation("C03:reused-encoder-output-malformed:"+clsOf(t), "a cleared and reused encoder does not produce the canonical well-formed encoding ("+why+")",
+			map[string]any{"tree": t.String(), "library_bytes": hx(again), "reference_bytes": hx(canon)})
 		return
 	}
 	// (b) independent generator -> library decoder
@@ -122,7 +147,7 @@ func Spec() *core.Spec {
 			"distinct = distinct (tree shape: tags, types, length mod 8, big-integer sign and bit-length mod 8)",
 		Assumptions: []string{"package wire is an independent reading of KMIP 1.4 §9.1 by the same author as the check", "booleans are exactly 0 or 1 on the wire"},
 		Shards:      func(tier string) int { return 8 },
-		Required:    []string{"trees", "overlong_bigint_inputs", "cases.ladder-strings", "cases.ladder-bigint"},
+		Required:    []string{"trees", "reused_encoder_outputs", "overlong_bigint_inputs", "cases.ladder-strings", "cases.ladder-bigint"},
 		Families: []core.Family{
 			{Name: "random", N: nOf(30000, 1500000), Run: func(c *core.Ctx, r *core.Rand, i int) {
 				t := gen.RandTree(r, 6, 6)
